@@ -33,3 +33,11 @@ Definition occurring (K : nat) (labels : list nat) : list nat :=
 Definition mode_label (K : nat) (labels : list nat) (j : nat) : option nat := nth_error (occurring K labels) j.
 (** the kernel reads means[assignment] *)
 Definition kernel_mode (K : nat) (labels : list nat) (assignment : nat) : option nat := mode_label K labels assignment.
+
+(** len(np.unique(labels)) == n_clusters_ for labels below K: every cluster attracts a training point *)
+Definition covers (K : nat) (labels : list nat) : bool := forallb (fun k => existsb (Nat.eqb k) labels) (seq 0 K).
+(** an iteration that reuses the clustering (Trainer.run, predict-only branch): the old model's predictions are kept when they
+    cover its K_old clusters; otherwise the model is refitted on the trimmed pool and the new model's predictions are used.
+    [check] = the coverage test is present; the result is (number of clusters of the model now installed, training labels) *)
+Definition reuse_labels (check : bool) (K_old : nat) (pred_old : list nat) (K_new : nat) (pred_new : list nat) : nat * list nat :=
+  if negb check || covers K_old pred_old then (K_old, pred_old) else (K_new, pred_new).
